@@ -286,8 +286,8 @@ func init() {
 	for _, id := range []string{"C02", "C03", "C12", "C13"} {
 		vx.AppendRule(id, t)
 	}
-	for _, id := range []string{"C12", "C13"} {
-		vx.AppendRule(id, " The same words as members of chains (all ordered pairs, triples of the short words) through DecodeChained: each File must equal the reference prediction for its member alone, so neither the reference time nor the definition slots survive a file boundary.")
+	for _, id := range []string{"C02", "C03", "C12", "C13"} {
+		vx.AppendRule(id, " The same words as members of chains (all ordered pairs, triples of the short words) through DecodeChained: each File must equal the reference prediction for its member alone and the member decoded alone (also with all decode options), so neither the reference time nor the definition slots survive a file boundary.")
 	}
 	vx.AppendRule("C16", " Generic form: counters derived from the independent parser and content from the reference decoder, over the mix words (length <=2 quick / <=3 thorough), the shared streams and every device file of the corpus, under all 8 option sets.")
 	vx.AppendRule("C10", " Chains of mix-family files: every ordered pair of words (length <=1 quick / <=2 thorough) and every triple of the short words through DecodeChained, each returned File against the reference decoder's prediction for that member alone; Decode of the chain must consume exactly the first member.")
